@@ -16,10 +16,13 @@ func extractAll(f *facts, v1, v2 *pkg, repo string) {
 	enqueueFacts(f, "v1", v1, "batcher.go", "Batcher")
 	enqueueFacts(f, "v2", v2, "batcher.go", "batcher")
 	// control-flow shape of the functions the Batcher machine mirrors: every `if`/`for`/`case` condition, in source order
-	for _, fn := range []string{"applyDefaults", "Pause", "resume", "Flush", "Start", "Stop", "incTarget", "trySetTargetToZero"} {
+	for _, fn := range []string{"applyDefaults", "Pause", "resume", "Flush", "Stop", "incTarget", "trySetTargetToZero"} {
 		shapeFact(f, "v1_shape_"+fn, v1, "batcher.go", "Batcher", fn)
 	}
-	for _, fn := range []string{"applyDefaults", "Pause", "resume", "Flush", "Start", "shutdown", "incTarget", "confirmTargetIsZero",
+	// Start is split: the part outside the loop's select, one part per select arm, one per named function literal
+	shapeParts(f, "v1_shape_Start", v1, "batcher.go", "Batcher", "Start")
+	shapeParts(f, "v2_shape_Start", v2, "batcher.go", "batcher", "Start")
+	for _, fn := range []string{"applyDefaults", "Pause", "resume", "Flush", "shutdown", "incTarget", "confirmTargetIsZero",
 		"confirmInflightIsZero", "tryReserveBatchSlot", "releaseBatchSlot", "processBatch", "Inflight"} {
 		shapeFact(f, "v2_shape_"+fn, v2, "batcher.go", "batcher", fn)
 	}
@@ -63,6 +66,171 @@ func extractAll(f *facts, v1, v2 *pkg, repo string) {
 // check or a dropped call changes the list.
 func shapeFact(f *facts, name string, p *pkg, file, recv, fn string) {
 	shapeFactX(f, name, p, file, recv, fn, false)
+}
+
+// armName: the part a select arm of the processing loop belongs to
+func armName(comm string) string {
+	switch {
+	case comm == "":
+		return "default"
+	case strings.Contains(comm, "ctx.Done") || strings.Contains(comm, ".stop"):
+		return "stop"
+	case strings.Contains(comm, ".pause"):
+		return "pause"
+	case strings.Contains(comm, "auditTimer"):
+		return "audit"
+	case strings.Contains(comm, "capacityTimer"):
+		return "capacity"
+	case strings.Contains(comm, "flushTimer"):
+		return "flushtick"
+	case strings.Contains(comm, ".flush"):
+		return "flush"
+	}
+	return "other"
+}
+
+// shapeParts: like shapeFact, but the skeleton of `Start` is cut into parts, so that an edit in one arm of the
+// processing loop only touches the expectations of the properties that arm implements: `<name>_head` (everything
+// outside the arms of the loop's select: phase check, defaults, tickers, the loop frame, deferred shutdown),
+// `<name>_arm_<stop|pause|audit|capacity|flushtick|flush>`, and `<name>_lit_<var>` for a function literal bound
+// to a local variable (v1: the `flush` closure that raises a batch and runs the per-batch goroutine).
+func shapeParts(f *facts, name string, p *pkg, file, recv, fn string) {
+	fd := p.fn(file, recv, fn)
+	if fd == nil || fd.Body == nil {
+		f.strList(name+"_head", []string{"<missing>"})
+		f.errs = append(f.errs, name+": function not found")
+		return
+	}
+	parts := map[string][]string{}
+	var walk func(part string, n ast.Node)
+	isLoopSelect := func(s *ast.SelectStmt) bool {
+		for _, c := range s.Body.List {
+			if cc, ok := c.(*ast.CommClause); ok && cc.Comm != nil && strings.Contains(p.str(cc.Comm), "auditTimer") {
+				return true
+			}
+		}
+		return false
+	}
+	walk = func(part string, root ast.Node) {
+		ast.Inspect(root, func(x ast.Node) bool {
+			if x == root {
+				return true
+			}
+			switch n := x.(type) {
+			case *ast.SelectStmt:
+				if isLoopSelect(n) {
+					for _, c := range n.Body.List {
+						cc := c.(*ast.CommClause)
+						comm := ""
+						if cc.Comm != nil {
+							comm = oneLine(p.str(cc.Comm))
+						}
+						parts[part] = append(parts[part], "select "+comm)
+						arm := "arm_" + armName(comm)
+						if _, seen := parts[arm]; !seen {
+							parts[arm] = []string{}
+						}
+						for _, st := range cc.Body {
+							parts[arm] = append(parts[arm], shapeOf(p, st, false)...)
+						}
+					}
+					return false
+				}
+			case *ast.AssignStmt:
+				if len(n.Lhs) == 1 && len(n.Rhs) == 1 {
+					if fl, ok := n.Rhs[0].(*ast.FuncLit); ok {
+						lit := "lit_" + p.str(n.Lhs[0])
+						parts[part] = append(parts[part], p.str(n.Lhs[0])+" := <func literal>")
+						parts[lit] = append(parts[lit], shapeOf(p, fl.Body, false)...)
+						return false
+					}
+				}
+			}
+			parts[part] = append(parts[part], shapeNode(p, x, false)...)
+			return true
+		})
+	}
+	walk("head", fd.Body)
+	keys := make([]string, 0, len(parts))
+	for k := range parts {
+		keys = append(keys, k)
+	}
+	sort.Strings(keys)
+	for _, k := range keys {
+		f.strList(name+"_"+k, parts[k])
+	}
+}
+
+// shapeNode: the skeleton entry (if any) of ONE node, without descending
+func shapeNode(p *pkg, x ast.Node, full bool) []string {
+	var out []string
+	switch n := x.(type) {
+	case *ast.IfStmt:
+		out = append(out, "if "+p.str(n.Cond))
+	case *ast.ForStmt:
+		if n.Cond != nil {
+			out = append(out, "for "+p.str(n.Cond))
+		} else {
+			out = append(out, "for")
+		}
+	case *ast.RangeStmt:
+		out = append(out, "range "+p.str(n.X))
+	case *ast.CaseClause:
+		if len(n.List) == 0 {
+			out = append(out, "default")
+		} else {
+			var cs []string
+			for _, e := range n.List {
+				cs = append(cs, p.str(e))
+			}
+			out = append(out, "case "+strings.Join(cs, ", "))
+		}
+	case *ast.CommClause:
+		if n.Comm == nil {
+			out = append(out, "select-default")
+		} else {
+			out = append(out, "select "+oneLine(p.str(n.Comm)))
+		}
+	case *ast.CallExpr:
+		if _, ok := n.Fun.(*ast.FuncLit); ok {
+			out = append(out, "call <func literal>")
+		} else {
+			out = append(out, "call "+p.str(n.Fun))
+		}
+	case *ast.GoStmt:
+		out = append(out, "go")
+	case *ast.DeferStmt:
+		out = append(out, "defer")
+	case *ast.ReturnStmt:
+		if full {
+			out = append(out, oneLine(p.str(n)))
+		} else {
+			out = append(out, "return")
+		}
+	case *ast.BranchStmt:
+		out = append(out, n.Tok.String()+" "+labelOf(n))
+	case *ast.IncDecStmt:
+		out = append(out, p.str(n.X)+n.Tok.String())
+	case *ast.AssignStmt:
+		if full {
+			out = append(out, oneLine(p.str(n)))
+		} else {
+			out = append(out, oneLine(p.str(n.Lhs[0]))+" "+n.Tok.String())
+		}
+	}
+	return out
+}
+
+// shapeOf: the skeleton of a whole subtree
+func shapeOf(p *pkg, root ast.Node, full bool) []string {
+	var out []string
+	ast.Inspect(root, func(x ast.Node) bool {
+		if x != nil {
+			out = append(out, shapeNode(p, x, full)...)
+		}
+		return true
+	})
+	return out
 }
 
 func shapeFactX(f *facts, name string, p *pkg, file, recv, fn string, full bool) {
